@@ -243,7 +243,10 @@ impl<M: ConvexCellMarker> Iterator for ConvexCellDecomposition<'_, M> {
     }
 }
 
-pub(crate) trait ConvexCellMarker: Clone + Send + Sync + Default {}
+/// Marker trait for the type-states of a [`ConvexCell`] ([`WithFaces`] / [`WithoutFaces`]).
+///
+/// Public so that downstream crates can name it in their implementations of the integral traits.
+pub trait ConvexCellMarker: Clone + Send + Sync + Default {}
 
 #[derive(Copy, Clone, Default)]
 pub struct WithoutFaces;
